@@ -348,6 +348,10 @@ def gen_vmdk(thorough=False):
                'vmfs', 'twoGbMaxExtentSparse', 'custom', '',
                'monolithicSparse2', 'x' * 70):
         yield 'vmdk createType %r' % ct[:20], vmdk(text=vmdk_descriptor(ct))
+    # descriptor locations that are 512 only modulo 2**64 (or 2**32) bytes
+    for ds in (2 ** 55 + 1, 2 ** 63 + 1, 0xFF80000000000001, 2 ** 23 + 1,
+               2 ** 32 + 1, 0, 2):
+        yield 'vmdk descriptor at sector %#x' % ds, vmdk(desc_sec=ds)
     yield 'vmdk no createType', vmdk(
         text=vmdk_descriptor().replace('createType', 'createTyp'))
     for line in ('RW 100 FLAT "/etc/passwd" 0', 'RDONLY 100 SPARSE "a/b"',
